@@ -173,9 +173,13 @@ func genCollisionCase(r *c.Rng, maxLen int) (Case, []string) {
 		recs[i], recs[j] = recs[j], recs[i]
 	}
 	aligned := r.Chance(1, 6)
+	odd := r.Chance(1, 3) // status values that are not HTTP status codes
 	for i := range recs {
 		x := &recs[i]
 		x.Status = c.Pick(r, statuses)
+		if odd && r.Chance(1, 3) {
+			x.Status = c.Pick(r, oddStatuses)
+		}
 		x.Dur = c.Pick(r, []int{1, 7, 120, 300, 4000}) + i
 		x.TDur = x.Dur + r.Range(0, 50)
 		x.TS = t0 + int64(700*i+r.Intn(600))
